@@ -36,6 +36,7 @@ type TCPConn struct {
 	Paused      bool // deliveries towards the peer are held (slow / stalled path)
 	BytesOut    int64
 	established bool
+	queued      int // bytes in out
 }
 
 type TCPListener struct {
@@ -66,6 +67,10 @@ type TCPNet struct {
 	Deliveries int
 	Conns      int
 	Resets     int
+	// SendBuf bounds the bytes a connection may have written but not yet delivered
+	// (0 = unbounded): a Write beyond it blocks, as on a socket whose peer is slow.
+	SendBuf    int
+	SendBlocks int
 }
 
 func NewTCPNet(s *Sched, segMax int) *TCPNet {
@@ -150,6 +155,7 @@ func (n *TCPNet) deliver(c *TCPConn) {
 	}
 	seg := c.out[0]
 	c.out = c.out[1:]
+	c.queued -= len(seg.data)
 	p := c.peer
 	if p.closed || p.reset {
 		// data for a closed socket: the peer answers with a reset
@@ -320,6 +326,29 @@ func (c *TCPConn) Write(p []byte) (int, error) {
 	if !c.wdl.IsZero() && !time.Now().Before(c.wdl) {
 		return 0, &net.OpError{Op: "write", Net: "tcp", Err: os.ErrDeadlineExceeded}
 	}
+	if n.SendBuf > 0 && c.queued >= n.SendBuf {
+		n.SendBlocks++
+		for c.queued >= n.SendBuf && !c.closed && !c.reset {
+			ch := n.cond
+			dl := c.wdl
+			n.mu.Unlock()
+			err := c.wait(ch, dl)
+			n.mu.Lock()
+			if err != nil {
+				return 0, &net.OpError{Op: "write", Net: "tcp", Err: err}
+			}
+		}
+		if c.closed {
+			return 0, net.ErrClosed
+		}
+		if c.reset {
+			return 0, &net.OpError{Op: "write", Net: "tcp", Err: syscall.EPIPE}
+		}
+		// the socket has room again: from here on the writer is the scheduler's to release
+		n.mu.Unlock()
+		Y("tcp.Write", "net:write-unblocked")
+		n.mu.Lock()
+	}
 	rest := p
 	for len(rest) > 0 {
 		k := len(rest)
@@ -331,6 +360,7 @@ func (c *TCPConn) Write(p []byte) (int, error) {
 			k = 1 + int(n.S.Data.Next()%uint64(k))
 		}
 		c.out = append(c.out, tcpSeg{data: append([]byte(nil), rest[:k]...)})
+		c.queued += k
 		rest = rest[k:]
 	}
 	c.BytesOut += int64(len(p))
@@ -358,9 +388,9 @@ func (c *TCPConn) Reset() {
 	n := c.net
 	n.mu.Lock()
 	c.closed = true
-	c.out = nil
+	c.out, c.queued = nil, 0
 	c.peer.reset = true
-	c.peer.out = nil
+	c.peer.out, c.peer.queued = nil, 0
 	n.Resets++
 	n.changed()
 	n.mu.Unlock()
